@@ -1,7 +1,7 @@
 #!/bin/sh
 # every filed behaviour-preserving refactoring against every check (claimed ones and the extras): all must stay silent.
 # A patch that no longer applies to the current tree (later fix: commits touched the same lines) is reported as such.
-cd /verif
+cd "$(dirname "$0")/.." && V=$(pwd)   # (a snapshot of /verif runs its own copy)
 props="$(python3 -c "import json;print(' '.join(c['property_id'] for c in json.load(open('MANIFEST.json'))['checks']))") X01 X02"
 for d in equivalent/*/; do
   id=$(basename $d)
